@@ -223,6 +223,39 @@ func C12(c Ctx) *report.Report {
 	}
 	rep.Evaluations = next + len(trCases)
 	rep.DistinctNontrivial = countNontrivial(hs) + len(trCases)
+	// corpus: a registry that lists a denom twice (possible through MsgSetRegistry), then MsgDeregister: afterwards the
+	// token must be unknown to the AMM and to the transfer gate
+	for variant := 0; variant < 3; variant++ {
+		e := env.New(env.Opts{NUsers: 3, Tokens: []string{"ceth", "cusdc"}})
+		e.BeginBlock()
+		mustOK(e.UpdateRewardsParams(0, 0, 0, "", false), "rewards params")
+		mustOK(e.CreatePool(e.Users[0], "ceth", new(big.Int).Mul(big.NewInt(1000), chain.E(18)), new(big.Int).Mul(big.NewInt(2000), chain.E(18))), "create")
+		reg := &tokenregistrytypes.Registry{Entries: []*tokenregistrytypes.RegistryEntry{regEntry("rowan", 7), regEntry("ceth", 7), regEntry("cusdc", 7)}}
+		for i := 0; i < 1+variant; i++ {
+			reg.Entries = append(reg.Entries, regEntry("ceth", []int{7, 3, 1}[i%3]))
+		}
+		mustOK(e.Tx(e.Admin, &tokenregistrytypes.MsgSetRegistry{From: e.Admin.Addr.String(), Registry: reg}), "set registry")
+		res := e.Tx(e.Admin, &tokenregistrytypes.MsgDeregister{From: e.Admin.Addr.String(), Denom: "ceth"})
+		desc := map[string]interface{}{"corpus": "denom listed more than once, then MsgDeregister", "copies": 2 + variant, "deregister_code": res.Code}
+		if res.Code == 0 {
+			left := 0
+			for _, en := range e.App.TokenRegistryKeeper.GetRegistry(e.Ctx()).Entries {
+				if en != nil && en.Denom == "ceth" {
+					left++
+				}
+			}
+			if left != 0 {
+				rep.Violate("C12/deregister-left-entry", fmt.Sprintf("after an accepted MsgDeregister the registry still lists the denom %d time(s)", left), desc)
+			}
+			sw := e.Swap(e.Users[1], "rowan", "ceth", chain.E(18), big.NewInt(0))
+			ad := e.AddLiquidity(e.Users[1], "ceth", chain.E(18), new(big.Int).Mul(big.NewInt(2), chain.E(18)))
+			if sw.Code == 0 || ad.Code == 0 {
+				rep.Violate("C12/amm-after-deregister", fmt.Sprintf("after MsgDeregister: swap code %d, add code %d", sw.Code, ad.Code), desc)
+			}
+		}
+		rep.Count("corpus.duplicate-denom-deregister")
+		next++
+	}
 	rep.Rule = "exhaustive matrix on the real app: every subset of the five permissions on the pool token x five native-token entries (all, not-sellable, not-buyable, no AMM permission, unregistered) x create / symmetric add / native-only add / external-only add / remove / remove-units / four swap routes, the registry being edited by the real MsgSetRegistry after the pools exist; plus random histories under random registries; plus 128 outgoing transfers (32 permission subsets x plain / alias / unit=denom / unregistered)"
 	rep.Distribution["exhaustive_amm_matrix"] = true
 	var all []Step
